@@ -1,6 +1,11 @@
-(** Correspondence for C05: the shared snap case, compared on the observables C05 is about. *)
+(** Correspondence for C05: whole SnapPolygon calls (shared snap case, compared on the observables C05 is about)
+    and component-level calls through the verif hook (Corr/Components.v). *)
 From Coq Require Import ZArith List.
-From Texel Require Export Prelude.Base Prelude.Corr Index.Model Snap.Model Corr.SnapCase.
-Definition case := snapcase.
-Definition check (c : case) : bool := check_proj proj_shape eq_shape c.
+From Texel Require Export Prelude.Base Prelude.Corr Index.Model Snap.Model Corr.SnapCase Corr.Components.
+Inductive case := SnapC (c : snapcase) | Comp (c : compcase).
+Definition check (k : case) : bool :=
+  match k with
+  | SnapC c => check_proj proj_shape eq_shape c
+  | Comp c => check_comp c
+  end.
 Definition mismatches (l : list case) : list N := mismatches_from check 0 l.
